@@ -803,3 +803,36 @@ Proof.
   - intros H. vm_compute in H. discriminate H.
   - vm_compute. reflexivity.
 Qed.
+
+(* ================================================================================================
+   7. the runner's sharing of beta3 between the channels of one fibre does not change any result *)
+Lemma beta3_shared_sound : forall pi fib sh f, beta3_shared pi fib = sh ->
+  chromatic_dispersion_with pi fib sh f = chromatic_dispersion pi fib f.
+Proof.
+  intros pi fib sh f <-. unfold chromatic_dispersion_with, chromatic_dispersion, beta3_shared, beta3.
+  destruct (f_disp fib) as [d [s|]|pts]; reflexivity.
+Qed.
+
+Lemma elem_contrib_with_sound : forall pi e f, elem_contrib_with pi e (elem_shared pi e) f = elem_contrib pi e f.
+Proof.
+  intros pi e f. destruct e as [fib|pmd pdl|pmd pdl|]; try reflexivity.
+  unfold elem_contrib_with, elem_contrib, elem_shared. rewrite (beta3_shared_sound pi fib _ f eq_refl). reflexivity.
+Qed.
+
+Lemma mapM_combine_map : forall A B C (F : A -> B -> res C) (g : A -> B) l,
+  mapM (fun es => F (fst es) (snd es)) (combine l (map g l)) = mapM (fun e => F e (g e)) l.
+Proof.
+  induction l as [|x t IH]; [reflexivity|]. cbn [map combine mapM fst snd]. rewrite IH. reflexivity.
+Qed.
+
+Lemma mapM_ext : forall A B (f g : A -> res B) l, (forall x, f x = g x) -> mapM f l = mapM g l.
+Proof. induction l as [|x t IH]; intros H; [reflexivity|]. cbn [mapM]. rewrite H, (IH H). reflexivity. Qed.
+
+Lemma propagate_path_with_sound : forall pi els f a,
+  propagate_path_with pi els (map (elem_shared pi) els) f a = propagate_path pi els f a.
+Proof.
+  intros pi els f a. unfold propagate_path_with, propagate_path.
+  rewrite (mapM_combine_map _ _ _ (fun e sh => elem_contrib_with pi e sh f) (elem_shared pi) els).
+  rewrite (mapM_ext _ _ _ (fun e => elem_contrib pi e f) els); [reflexivity|].
+  intros e. apply elem_contrib_with_sound.
+Qed.
